@@ -318,4 +318,40 @@ def onSuffix (m : MatrixModel) (kind : Nat) (entries : List (Nat × Rat)) : List
   if kind % 4 == 0 then dense nmax (entries.map (fun e => (vpermInv m e.1, e.2)))
   else dense nmax entries
 
+/-! ## State that outlives one model: `NLModel::PreprocessData` (owned by `NLSolver` as `pd_`) -/
+
+/-- `NLModel::PreprocessData` -/
+structure Pd where
+  vperm : List Nat
+  vpermInv : List Nat
+  deriving Repr, DecidableEq, Inhabited
+
+/-- `std::vector<int>::resize(n)` -/
+def resizeTo (l : List Nat) (n : Nat) : List Nat := l.take n ++ List.replicate (n - l.length) 0
+
+/-- `NLFeeder_Easy::ExportPreproData(pd)`: resize both vectors to `NumCols()`, then assign every entry.
+A state update: `pd` may hold the permutation of a previously loaded model. -/
+def exportPrepro (old : Pd) (m : MatrixModel) : Pd :=
+  { vperm := (List.range m.n).foldl (fun acc i => acc.set i (vperm m i)) (resizeTo old.vperm m.n)
+    vpermInv := (List.range m.n).foldl (fun acc i => acc.set i (vpermInv m i)) (resizeTo old.vpermInv m.n) }
+
+/-- what a fresh `PreprocessData` holds after exporting `m` -/
+def pdOf (m : MatrixModel) : Pd :=
+  { vperm := (List.range m.n).map (vperm m), vpermInv := (List.range m.n).map (vpermInv m) }
+
+/-- a history: models loaded one after the other through the same `NLSolver` / `PreprocessData` -/
+def runHistory (pd0 : Pd) (ms : List MatrixModel) : Pd := ms.foldl exportPrepro pd0
+
+/-- `SOLHandler_Easy::OnPrimalSolution` as written: uses the stored `pd_.vperm_inv_`
+(`x_.resize(num_vars)`, then `x_[pd_.vperm_inv_[i]] = value_i` for `i` ascending: a later write wins) -/
+def onPrimalPd (pd : Pd) (n : Nat) (xs : List Rat) : List Rat :=
+  if xs.isEmpty then []
+  else dense n (xs.zipIdx.map (fun e => (pd.vpermInv.getD e.2 0, e.1)))
+
+/-- `SOLHandler_Easy::OnSuffix` as written: uses the stored `pd_.vperm_inv_` -/
+def onSuffixPd (pd : Pd) (n mrows : Nat) (kind : Nat) (entries : List (Nat × Rat)) : List Rat :=
+  let nmax := match kind % 4 with | 0 => n | 1 => mrows | _ => 1
+  if kind % 4 == 0 then dense nmax (entries.map (fun e => (pd.vpermInv.getD e.1 0, e.2)))
+  else dense nmax entries
+
 end MpVerif.C08
